@@ -222,7 +222,18 @@ def make(prop, i, tier):
     if prop == "C09":
         # what a machine's loggingConfiguration sends to the log (and redacts there) must not touch the stored history
         from checks import c11
+        before = dict((ex["name"], ex["input"]) for ex in scn["executions"])
         c11.add_logging(random.Random(seed ^ 0x109), scn, 0.3)
+        for ex in scn["executions"]:
+            if ex["input"] is not before[ex["name"]]:
+                # (the larger payload given to some logged machines: the reference model is run again on it)
+                one = {"machines": {ex["machine"]: scn["machines"][ex["machine"]]}, "executions": [ex],
+                       "script": scn["script"], "config": cfg}
+                mo = E.model_for(one)
+                if spec["accept"](mo, definition=scn["machines"][ex["machine"]]["definition"]) is None:
+                    models[ex["name"]] = mo
+                else:
+                    ex["input"] = before[ex["name"]]
     return seed, scn, models, skipped
 
 
